@@ -272,6 +272,16 @@ def r4_index_guards(ctx):
                     and isinstance(n.value, ast.BinOp) and isinstance(n.value.op, ast.Mod)
                     and astx.is_name(n.value.left, "round_number") and N.key(n.value.right) == "len(self.election_states)"]
             okm = bool(mods) and all(r.lineno < mods[0].lineno for r in raises)
+            if not mods:
+                # the normalised index kept under another name (read through): after the guard, round_number is only ever read as
+                # round_number % len(states)
+                modx = [n for n in astx.walk_own(q.node) if isinstance(n, ast.BinOp) and isinstance(n.op, ast.Mod) and astx.is_name(n.left, "round_number")
+                        and N.key(n.right) == "len(self.election_states)"]
+                lefts = {id(n.left) for n in modx}
+                guard_nodes = {id(x) for r in raises for t, _ in astx.path_condition(q.node, r, pm) for x in ast.walk(t)}
+                later = [n for n in astx.walk_own(q.node) if isinstance(n, ast.Name) and n.id == "round_number" and isinstance(n.ctx, ast.Load)
+                         and id(n) not in guard_nodes and not any(id(n) in {id(y) for y in ast.walk(r)} for r in raises)]
+                okm = bool(modx) and all(id(n) in lefts for n in later) and all(r.lineno <= min(m.lineno for m in modx) for r in raises)
             if okg and okm:
                 guarded_methods.add(q.qualname)
                 ctx.ok(q, raises[0], f"{q.short}: two-sided IndexError guard then `% len(states)`", bool_key(g))
